@@ -3,7 +3,7 @@ Executable model of searching several collections (C08):
 
 * `src/sourmash/search.py`  : `JaccardSearch` (three score functions, `passes`, `collect` of the
                               best-only subclass), `search_databases_with_flat_query` (per-database
-                              `search`, md5 de-duplication keeping the first seen, final sort)
+                              `search`, de-duplication on (md5, scaled, num) keeping the first seen, final sort)
 * `src/sourmash/index/__init__.py` : `Index.find` (scaled branch) and `Index.search` of an in-memory index
 * `src/sourmash/commands.py` : `prefetch` over several databases (per-database `prefetch`, rows concatenated)
 
@@ -88,10 +88,15 @@ def searchDb (st : SearchType) (db : List (Sig α)) (query : α) (thr : F) (best
     | .error e => .error e
     | .ok l => .ok (sortDesc l)
 
-/-- the de-duplication loop of `search_databases_with_flat_query`: keep the first result per md5 -/
-def dedupMd5 : List Nat → List (F × Sig α) → List (F × Sig α)
+/-- the key `search_databases_with_flat_query` de-duplicates on:
+    `(match.md5sum(), match.minhash.scaled, match.minhash.num)` -/
+def sigKey (s : Sig α) : Nat × Nat × Nat := (s.md5, K.scaled s.mh, K.num s.mh)
+
+/-- the de-duplication loop of `search_databases_with_flat_query`: keep the first result per key -/
+def dedupKey : List (Nat × Nat × Nat) → List (F × Sig α) → List (F × Sig α)
   | _, [] => []
-  | seen, x :: xs => if seen.contains x.2.md5 then dedupMd5 seen xs else x :: dedupMd5 (x.2.md5 :: seen) xs
+  | seen, x :: xs =>
+    if seen.contains (sigKey K x.2) then dedupKey seen xs else x :: dedupKey (sigKey K x.2 :: seen) xs
 
 def searchEach (st : SearchType) (query : α) (thr : F) (bestOnly : Bool) :
     List (List (Sig α)) → Except GErr (List (F × Sig α))
@@ -109,7 +114,7 @@ def searchDatabases (st : SearchType) (dbs : List (List (Sig α))) (query : α) 
     Except GErr (List (F × Sig α)) :=
   match searchEach K st query thr bestOnly dbs with
   | .error e => .error e
-  | .ok l => .ok (sortDesc (dedupMd5 [] l))
+  | .ok l => .ok (sortDesc (dedupKey K [] l))
 
 /-- `commands.prefetch`: per-database `prefetch` (empty databases are skipped), rows concatenated -/
 def prefetchDatabases (query : α) (thrBp : Nat) : List (List (Sig α)) → Except GErr (List (F × Sig α))
